@@ -73,6 +73,7 @@ class Socket:
         Raises:
             ScrapliConnectionNotOpened: if socket refuses connection on all address families
             ScrapliConnectionNotOpened: if socket connection times out on all address families
+            ScrapliConnectionNotOpened: if socket connection fails otherwise on all address families
 
         """
         for address_family_index, address_family in enumerate(socket_address_families, start=1):
@@ -93,6 +94,15 @@ class Socket:
                 msg = (
                     f"timed out trying to open socket to {self.host} on port {self.port} for "
                     f"address family {address_family.name}"
+                )
+                self.logger.warning(msg)
+                if address_family_index == len(socket_address_families):
+                    raise ScrapliConnectionNotOpened(msg) from exc
+            except OSError as exc:
+                # network/host unreachable, connection reset while connecting, etc.
+                msg = (
+                    f"failed to open socket to {self.host} on port {self.port} for address family "
+                    f"{address_family.name}: {exc}"
                 )
                 self.logger.warning(msg)
                 if address_family_index == len(socket_address_families):
